@@ -241,6 +241,10 @@ class SSHChannel(Generic[AnyStr], SSHPacketHandler):
 
             self._request_waiters = []
 
+        # Requests from the peer still waiting to be serviced have nothing
+        # left to act on
+        self._request_queue = []
+
         if self._session is not None:
             # pylint: disable=broad-except
             try:
@@ -501,6 +505,11 @@ class SSHChannel(Generic[AnyStr], SSHPacketHandler):
 
     def _report_response(self, result: bool) -> None:
         """Report back the response to a previously issued channel request"""
+
+        # The channel may have been cleaned up while the request was being
+        # processed asynchronously
+        if not self._request_queue:
+            return
 
         request, _, want_reply = self._request_queue.pop(0)
 
@@ -1742,6 +1751,9 @@ class SSHServerChannel(SSHChannel, Generic[AnyStr]):
                                       auth_data: bytes, screen: int) -> None:
         """Finish processing request to enable X11 forwarding"""
 
+        if not self._conn:
+            return
+
         self._x11_display = await self._conn.attach_x11_listener(
             self, auth_proto, auth_data, screen)
 
@@ -1762,6 +1774,9 @@ class SSHServerChannel(SSHChannel, Generic[AnyStr]):
 
     async def _finish_agent_req_request(self) -> None:
         """Finish processing request to enable agent forwarding"""
+
+        if not self._conn:
+            return
 
         if await self._conn.create_agent_listener():
             self.logger.debug1('  Agent forwarding enabled')
